@@ -40,6 +40,23 @@ def setup() -> None:
             raise HarnessError(f"{m.__name__} imported from {f}, expected under {REPO}")
 
 
+_PULSER_EIGENSTATES = {"ground-rydberg": ["r", "g"], "digital": ["g", "h"], "XY": ["u", "d"]}
+
+
+def reset_globals() -> None:
+    """Reset module-level state between cases.  pulser-core 1.9.1 appends the leakage state 'x' to the module-level
+    list pulser.channels.base_channel.EIGENSTATES[...] when a sequence with no used basis (all-zero drive) is sampled
+    with with_leakage=True, which would leak into every later case of the same process."""
+    try:
+        from pulser.channels import base_channel
+
+        for k, v in _PULSER_EIGENSTATES.items():
+            if base_channel.EIGENSTATES.get(k) != v:
+                base_channel.EIGENSTATES[k][:] = v
+    except Exception:  # pragma: no cover
+        pass
+
+
 class Result:
     """Outcome of one generated case."""
 
